@@ -76,6 +76,10 @@ def check(case):
     pts = c["points"] if explicit else special_points(ref, c["points"], deltas, random.Random(cm.sha(text)))
     plains = []
     for bk in c.get("backends", ["numpy"]):
+        if bk == "c" and ref.c_unsafe():
+            # an integer-literal quotient in the text: the C value of the rate itself is wrong (listed finding of C02), nothing to learn here
+            cm.note(res, "skipped:c:integer-quotient-territory(C02)")
+            continue
         suffix = ""
 
         def add(kind, what, inp, exp=None, act=None, detail="", base=None, feature=False):
@@ -134,7 +138,8 @@ def check(case):
                             got = m.scheme("generalized_rush_larsen", pt, dt)
                         except be.Stage as e:
                             res["evals"] += 1
-                            add(f"call-raises:{cm.exc_name(e.exc)}", "generalized_rush_larsen raises", {"ode": text, "deltas": [delta], "points": [pt], "dts": [dt]}, "values", cm.exc_name(e.exc), str(e))
+                            zb = any(ref.zero_power_base(f"d{s_}_dt", pt["t"], pt["states"], pt["params"]) for s_ in ref.states)
+                            add(f"call-raises:{cm.exc_name(e.exc)}" + (":zero-base-of-a-power" if zb else ""), "generalized_rush_larsen raises", {"ode": text, "deltas": [delta], "points": [pt], "dts": [dt]}, "values", cm.exc_name(e.exc), str(e))
                             break
                         for s, (f, g) in fg.items():
                             x = pt["states"][s]
@@ -159,12 +164,14 @@ def check(case):
                             if abs(v - want) <= tol:
                                 continue
                             inp = {"ode": text, "deltas": [delta], "points": [pt], "dts": [dt]}
+                            # a power whose base is exactly 0 here: sympy's derivative b**e * (e b'/b) is 0 * inf = nan in the generated code
+                            zb = ":zero-base-of-a-power" if ref.zero_power_base(f"d{s}_dt", pt["t"], pt["states"], pt["params"]) else ""
                             other = x + dt * f if branch == "rl" else (x + (f / g) * math.expm1(g * dt) if g != 0 else math.nan)
                             if not math.isfinite(v):
-                                add("non-finite", f"GRL value for {s} is {v} although f={f}, g={g} are finite", inp, want, v, f"state {s}, branch {branch}")
+                                add("non-finite" + zb, f"GRL value for {s} is {v} although f={f}, g={g} are finite", inp, want, v, f"state {s}, branch {branch}")
                             elif math.isfinite(other) and abs(v - other) <= 1e-9 * (abs(x) + abs(other - x)) + 8e-16 * abs(f / g if g else 0):
                                 kind = "delta-not-honoured:rl-applied-below-delta" if branch == "euler" else "delta-not-honoured:euler-applied-above-delta"
-                                add(kind, f"|g|={abs(g)} vs delta={delta}: expected the {branch} update for {s}", inp, want, v, f"f={f} g={g} rate: {ref.assigns['d' + s + '_dt'].expr_text[:100]}")
+                                add(kind + zb, f"|g|={abs(g)} vs delta={delta}: expected the {branch} update for {s}", inp, want, v, f"f={f} g={g} rate: {ref.assigns['d' + s + '_dt'].expr_text[:100]}")
                             else:
                                 gt = ref.own_derivative(s, pt["t"], pt["states"], pt["params"], total=True)[1]
                                 add("grl-mismatch", f"GRL value for {s} differs from x + (f/g)(exp(g dt) - 1)", inp, want, v,
